@@ -1,0 +1,208 @@
+//go:build verif
+
+package rtpconn
+
+import (
+	"sync"
+	"time"
+
+	"github.com/pion/interceptor"
+	"github.com/pion/rtcp"
+	"github.com/pion/rtp"
+	"github.com/pion/webrtc/v4"
+
+	"github.com/jech/galene/conn"
+	"github.com/jech/galene/estimator"
+	"github.com/jech/galene/packetcache"
+	"github.com/jech/galene/rtptime"
+)
+
+// VerifTrack drives a real rtpDownTrack (Write, gotNACK, adjustLayer,
+// updateRate) without a peer connection: the local track is bound to a sink
+// that captures what would be sent, and the remote track is a fake
+// conn.UpTrack backed by a real packet cache.
+
+type verifUpTrack struct {
+	codec     webrtc.RTPCodecCapability
+	cache     *packetcache.Cache
+	mu        sync.Mutex
+	keyframes int
+}
+
+func (u *verifUpTrack) AddLocal(conn.DownTrack) error { return nil }
+func (u *verifUpTrack) DelLocal(conn.DownTrack) bool  { return true }
+func (u *verifUpTrack) Kind() webrtc.RTPCodecType     { return webrtc.RTPCodecTypeVideo }
+func (u *verifUpTrack) Label() string                 { return "verif" }
+func (u *verifUpTrack) Codec() webrtc.RTPCodecCapability {
+	return u.codec
+}
+func (u *verifUpTrack) RequestKeyframe() error {
+	u.mu.Lock()
+	u.keyframes++
+	u.mu.Unlock()
+	return nil
+}
+func (u *verifUpTrack) GetPacket(seqno uint16, result []byte, nack bool) uint16 {
+	return u.cache.Get(seqno, result)
+}
+
+type verifSink struct {
+	mu      sync.Mutex
+	packets [][]byte
+}
+
+func (s *verifSink) WriteRTP(h *rtp.Header, payload []byte) (int, error) {
+	p := rtp.Packet{Header: *h, Payload: payload}
+	b, err := p.Marshal()
+	if err != nil {
+		return 0, err
+	}
+	s.mu.Lock()
+	s.packets = append(s.packets, b)
+	s.mu.Unlock()
+	return len(payload), nil
+}
+
+func (s *verifSink) Write(b []byte) (int, error) {
+	s.mu.Lock()
+	s.packets = append(s.packets, append([]byte(nil), b...))
+	s.mu.Unlock()
+	return len(b), nil
+}
+
+type verifContext struct {
+	codec webrtc.RTPCodecCapability
+	sink  *verifSink
+}
+
+func (c *verifContext) CodecParameters() []webrtc.RTPCodecParameters {
+	return []webrtc.RTPCodecParameters{
+		{RTPCodecCapability: c.codec, PayloadType: 96},
+	}
+}
+func (c *verifContext) HeaderExtensions() []webrtc.RTPHeaderExtensionParameter {
+	return nil
+}
+func (c *verifContext) SSRC() webrtc.SSRC                       { return 0x1234 }
+func (c *verifContext) SSRCRetransmission() webrtc.SSRC         { return 0 }
+func (c *verifContext) SSRCForwardErrorCorrection() webrtc.SSRC { return 0 }
+func (c *verifContext) WriteStream() webrtc.TrackLocalWriter    { return c.sink }
+func (c *verifContext) ID() string                              { return "verif" }
+func (c *verifContext) RTCPReader() interceptor.RTCPReader      { return nil }
+
+type VerifTrack struct {
+	down *rtpDownTrack
+	up   *verifUpTrack
+	sink *verifSink
+}
+
+func NewVerifTrack(mime string, cacheCapacity int) (*VerifTrack, error) {
+	codec := webrtc.RTPCodecCapability{MimeType: mime, ClockRate: 90000}
+	track, err := webrtc.NewTrackLocalStaticRTP(codec, "verif", "verif")
+	if err != nil {
+		return nil, err
+	}
+	sink := &verifSink{}
+	_, err = track.Bind(&verifContext{codec: codec, sink: sink})
+	if err != nil {
+		return nil, err
+	}
+	up := &verifUpTrack{codec: codec, cache: packetcache.New(cacheCapacity)}
+	down := &rtpDownTrack{
+		track:          track,
+		remote:         up,
+		maxBitrate:     new(bitrate),
+		maxREMBBitrate: new(bitrate),
+		rate:           estimator.New(time.Second),
+		stats:          new(receiverStats),
+		atomics:        &downTrackAtomics{},
+	}
+	return &VerifTrack{down: down, up: up, sink: sink}, nil
+}
+
+func (v *VerifTrack) take() [][]byte {
+	v.sink.mu.Lock()
+	defer v.sink.mu.Unlock()
+	p := v.sink.packets
+	v.sink.packets = nil
+	return p
+}
+
+// Store puts a packet in the remote track's cache, as readLoop does.
+func (v *VerifTrack) Store(seqno uint16, ts uint32, kf, marker bool, buf []byte) {
+	v.up.cache.Store(seqno, ts, kf, marker, buf)
+}
+
+func (v *VerifTrack) ResizeCache(capacity int) { v.up.cache.Resize(capacity) }
+
+// Write calls rtpDownTrack.Write and returns what was sent.
+func (v *VerifTrack) Write(buf []byte) ([][]byte, int, error) {
+	n, err := v.down.Write(buf)
+	return v.take(), n, err
+}
+
+// NACK calls gotNACK with the given outgoing sequence numbers.
+func (v *VerifTrack) NACK(seqnos []uint16) [][]byte {
+	var pairs []rtcp.NackPair
+	for _, s := range seqnos {
+		pairs = append(pairs, rtcp.NackPair{PacketID: s})
+	}
+	gotNACK(v.down, &rtcp.TransportLayerNack{Nacks: pairs})
+	return v.take()
+}
+
+// Layer returns the packed layer word.
+func (v *VerifTrack) Layer() uint32 {
+	l := v.down.getLayerInfo()
+	var lim uint32
+	if l.limitSid {
+		lim = 1 << 12
+	}
+	return uint32(l.sid) | uint32(l.wantedSid)<<4 | uint32(l.maxSid)<<8 | lim |
+		uint32(l.tid)<<16 | uint32(l.wantedTid)<<20 | uint32(l.maxTid)<<24
+}
+
+// SetLimitSid does what replaceTracks does to the layer word.
+func (v *VerifTrack) SetLimitSid(limit bool) {
+	layer := v.down.getLayerInfo()
+	layer.limitSid = limit
+	if limit {
+		layer.wantedSid = 0
+	}
+	v.down.setLayerInfo(layer)
+}
+
+// SetRates fixes what the rate estimator and the bitrate limits return.
+func (v *VerifTrack) SetRates(rate uint32, maxBitrate uint64, remb uint64) {
+	now := rtptime.Jiffies()
+	v.down.rate.VerifSetRate(rate, 0)
+	v.down.maxBitrate.Set(maxBitrate, now)
+	v.down.maxREMBBitrate.Set(remb, now)
+}
+
+func (v *VerifTrack) AdjustLayer() { v.down.adjustLayer() }
+
+// UpdateRate calls updateRate with the current time and returns the new
+// loss-based maximum bitrate.
+func (v *VerifTrack) UpdateRate(loss uint8) uint64 {
+	now := rtptime.Jiffies()
+	v.down.updateRate(loss, now)
+	return v.down.maxBitrate.Get(now)
+}
+
+// SetMaxBitrate sets the loss-based maximum with a given age (in jiffies).
+func (v *VerifTrack) SetMaxBitrate(rate uint64, age uint64) {
+	v.down.maxBitrate.Set(rate, rtptime.Jiffies()-age)
+}
+
+func (v *VerifTrack) Keyframes() int {
+	v.up.mu.Lock()
+	defer v.up.mu.Unlock()
+	return v.up.keyframes
+}
+
+func (v *VerifTrack) MapDump() string { return v.down.packetmap.VerifDump() }
+
+// SetRates2 fixes what the rate estimator returns, leaving the bitrate
+// limits alone.
+func (v *VerifTrack) SetRates2(rate uint32) { v.down.rate.VerifSetRate(rate, 0) }
